@@ -6,30 +6,34 @@ H = os.path.join(fw.VERIF, 'harness', 'parse_b.cpp')
 NTS = ['S', 'PORTS', 'OPORTS', 'ARGS', 'MARGS', 'P', 'MOREP', 'VALUE', 'VARGS', 'MVARGS']
 STUBS = {'_Z%d%sR10ParseState' % (len(n), n): 'stub_' + n for n in NTS}
 STUBS['_Z25expected_end_or_semicolonR10ParseState'] = 'stub_expected_end'
+STUBS['_ZN4Theo4scanESt3mapISt6stringS1_ES1_'] = 'stub_scan'
+STUBS['_ZN4Theo14extract_macrosESt6vectorINS_5TokenEE'] = 'stub_extract'
+STUBS['_ZN4Theo12apply_macrosESt6vectorINS_5TokenEERS0_INS_15MacroDefinitionEEj'] = 'stub_apply'
 
 
 def parser_jobs(prop, tier, wd, tags):
     hdr = os.path.join(wd, 'pb_data.hpp')
     info = parseb.header(hdr, os.path.join(fw.VERIF, 'spec', 'grammar.ll1'))
     w = 10 if tier == 'quick' else 12
-    defines = ['PB_DATA="%s"' % hdr, 'PB_W=%d' % w, 'MINISTL_STR_CAP=12', 'MINISTL_VEC_CAP=8', 'MINISTL_MAP_CAP=3']
+    defines = ['PB_DATA="%s"' % hdr, 'PB_W=%d' % w, 'MINISTL_STR_CAP=12', 'MINISTL_VEC_CAP=8', 'MINISTL_MAP_CAP=3', 'MINISTL_OPAQUE_CONCAT=1']
     jobs = []
     plan = []
     for n in NTS:
         for k in info['first'][n]: plan.append(('harness_' + n, k))
         plan.append(('harness_' + n, None))
-    plan += [('harness_match', '*'), ('harness_expected_end', '*')]
+    plan += [('harness_match', '*'), ('harness_expected_end', '*'), ('harness_parse_top', '*')]
     for e, first in plan:
         fk = [] if first == '*' else ['PB_FIRST_KIND=%d' % (parseb.TOKENS.index(first) if first else -1)]
+        dd = [x.replace('MINISTL_STR_CAP=12', 'MINISTL_STR_CAP=16') for x in defines] if e == 'harness_parse_top' else defines      # the key __standards__ has 13 characters
         nm = e.replace('harness_', '')
-        jobs.append(fw.Job('parse.%s.%s' % (nm, first if first not in (None, '*') else ('other' if first is None else 'any')), H, e, tus=['Compiler/src/ast.cpp'], defines=defines + fk, caps='caps_parse.hpp', unwind=w + 2,
-                           unwindset={'_ZL10select_rowii.0': info['rows'] + 1}, tags=tags, stubs=STUBS, native=False, extra=['--object-bits', '12'],
+        jobs.append(fw.Job('parse.%s.%s' % (nm, first if first not in (None, '*') else ('other' if first is None else 'any')), H, e, tus=['Compiler/src/ast.cpp'], defines=dd + fk, caps='caps_parse.hpp', unwind=w + 2,
+                           unwindset={'_ZL10select_rowii.0': info['rows'] + 1}, tags=tags, stubs=STUBS, native=False, extra=['--object-bits', '12'] + (['--memory-leak-check'] if 'C02' in tags else []),
                            ub_pat=r'^(_Z\d|_ZN10ParseState|_ZN4Theo|_ZNSt|_ZNKSt|_ZSt)\S*\.(assertion|pointer_dereference|array_bounds)' if 'C02' in tags else None,
                            timeout=600 if tier == 'quick' else 1500,
                            what='real %s of parse.cpp entered on %s, every callee replaced by its contract stub, symbolic window of <= %d tokens: SOUND / COMPLETE against the LL(1) row selected by the lookahead, SAFE (cursor, progress, nullness)' % (nm, ('token ' + first) if first not in (None, '*') else ('any token outside its FIRST set' if first is None else 'any token'), w),
                            bounds='token window <= %d tokens (the function under test reads nothing outside it); token streams of any length; unwind %d' % (w, w + 2),
                            functions=['parse.cpp:' + nm.replace('expected_end', 'expected_end_or_semicolon').replace('match', 'ParseState::match')],
-                           build_key=('parse', tuple(fk))))
+                           build_key=('parse', tuple(fk), e == 'harness_parse_top')))
     return jobs, info
 
 
